@@ -5,3 +5,14 @@
 unsigned int __wrap_sleep(unsigned int s) { (void)s; return 0; }
 time_t __wrap_time(time_t *t) { if (t) *t = 1000000000; return 1000000000; }
 int __wrap_gettimeofday(struct timeval *tv, void *tz) { (void)tz; tv->tv_sec = 1000000000; tv->tv_usec = 123456; return 0; }
+
+/* the tarpit waits in poll() on the input for (5+n) seconds; answer at once so that a session takes milliseconds.
+ * The reader's own poll() uses control/timeoutsmtpd (set to 1000 s by the harness) and is left alone. */
+#include <poll.h>
+int __real_poll(struct pollfd *fds, nfds_t nfds, int timeout);
+int __wrap_poll(struct pollfd *fds, nfds_t nfds, int timeout)
+{
+	if (nfds == 1 && fds[0].fd == 0 && timeout > 0 && timeout <= 300000)
+		timeout = 0;
+	return __real_poll(fds, nfds, timeout);
+}
